@@ -192,6 +192,8 @@ def apply_edits(item, edits, twin_false=False):
             item.lift_block(at["anchor"], int(at.get("nth", "1")), e["a"], at.get("why", ""), at.get("pre", ""), at.get("post", ""))
         elif k == "lift-stmts":
             item.lift_stmts(at["anchor"], int(at.get("nth", "1")), int(at.get("count", "1")), e["a"], at.get("post", ""), at.get("why", ""))
+        elif k == "lift-closure":
+            item.lift_closure(at["anchor"], int(at.get("nth", "1")), e["a"], at.get("why", ""))
         elif k == "abstract-span":
             item.abstract_span(at["anchor"], int(at.get("nth", "1")), at.get("tail", ""), e["a"], at.get("why", ""), int(at.get("groups", "1")))
         elif k == "desugar-iter-chain":
